@@ -258,6 +258,32 @@ func runC06(c *Ctx) {
 	// ---- R1
 	checkAggregateCommitVerifier(c, "C06.R1", vac)
 	checkChangeDetectionComplete(c, "C06.G change-detection-complete", []string{"pkg/consensus/liskbft.(*API).SetBFTParameters", "pkg/consensus/liskbft.(*API).SetGeneratorKeys"})
+	// ---- R8 the pool holds a commit once. Aggregation sums the weight of every stored commit
+	// and adds every stored signature: a commit stored twice (Certify reaches the same height
+	// by two routes; two gossip validators race between Has and Add) makes the node assemble
+	// an aggregate its own verification rejects. The insertion itself must be guarded, under
+	// the lock it is made with.
+	if add := c.Anchor("pkg/consensus/certificate.(*Pool).Add"); add != nil {
+		af := factsOf(add)
+		n := 0
+		for _, st := range storesToField(add, "consensus/certificate.Pool", "nonGossiped") {
+			n++
+			notIn := func(list string) bool {
+				return af.EveryPathHas(st.Block(), func(f Fact) bool {
+					if f.IsCmp || f.Truth || f.B.Op != "call" {
+						return false
+					}
+					if !(strings.HasSuffix(f.B.Sym, "certificate.SingleCommits).has") || strings.Contains(f.B.Sym, "slices.Contains")) {
+						return false
+					}
+					return strings.Contains(f.B.String(), "."+list)
+				})
+			}
+			ok := notIn("gossiped") && notIn("nonGossiped")
+			c.Require("C06.R8 pool-holds-a-commit-once", FuncKey(add)+": append to nonGossiped", p.InstrPos(st), "a commit is inserted only where it was found in neither list (same critical section)", ok, "")
+		}
+		c.MinInstances("C06.R8 pool-holds-a-commit-once", n, 1)
+	}
 	ff := factsOf(vac)
 	_, _, _, _ = ff, commitH, heights, nextH
 
